@@ -11,7 +11,7 @@ CLAIM = {
             "configuration (lex_cfg_render), and the serializer model prints the environment's own spellings, so the string form re-lexes to the same tokens (str_cfg_tokens). "
             "Evaluation is independent of the spellings by construction of the compiled AST. Tied to lex.py/env.py/filter.py on every run: for sampled configurations "
             "(every pair of identifiers covered by every prefix-related pair) each query is rendered with the custom spellings, compiled in a custom environment, and compared - "
-            "AST, results, string form and its recompilation - with the default environment.",
+            "AST, results, string form and its recompilation - with the default environment. The full character-level lexer model and printer (JP.Lex) are run against the implementation under every sampled configuration (raw tokens, cooked tokens, printed text).",
     "note": "Trusted: Lean kernel; the token-level lexer model for identifier tokens; configurations whose spellings collide with fixed lexer rules (e.g. '|||' vs '||') are "
             "outside ValidCfg, as the property's 'non-overlapping' says.",
     "technique": "Lean 4 theorems on the identifier-token lexer/printer model + differential correspondence across token configurations",
@@ -100,7 +100,20 @@ def _res(q, doc, extra):
 
 def evaluate(ctx, cases):
     import jsonpath
+    from .. import lexcorr
 
+    batches = {}
+    try:
+        _evaluate(ctx, cases, batches)
+    finally:
+        # character-level correspondence under each configuration: lexer (longest-first splice in the
+        # full rule list) and printer with the configured spellings
+        for env, texts, compiled in batches.values():
+            lexcorr.run_texts(ctx, env, texts, label="lex.raw(custom spellings)")
+            lexcorr.run_queries(ctx, env, compiled)
+
+
+def _evaluate(ctx, cases, batches):
     for c in cases:
         cfg, text, doc, extra = c["cfg"], c["text"], c["doc"], c["ctx"]
         d = qeval.compile_outcome(text)
@@ -113,10 +126,13 @@ def evaluate(ctx, cases):
         inp = {"config": cfg, "default_text": text, "custom_text": ctext, "doc": doc, "filter_context": extra}
         used = sum(1 for k in ("@", "#", "_", "~", "^", "|", "&") if k in text) + 1
         ctx.case((repr(sorted(cfg.items())), text, repr(doc)), used >= 2, sample={"config": cfg, "custom_text": ctext, "default_text": text})
+        b = batches.setdefault(repr(sorted(cfg.items())), (env, [], []))
+        b[1].append(ctext)
         o = core.outcome(lambda: env.compile(ctext))
         if "err" in o:
             ctx.violation("a query written with the configured spellings must compile in that environment", inp, o, "compiles")
             continue
+        b[2].append((ctext, o["ok"]))
         if astdump.dump_query(o["ok"]) != ast:
             ctx.violation("a query written with the configured spellings must compile to the same query as the default spelling in the default environment", inp, astdump.dump_query(o["ok"]), ast)
         want = _res(d["ok"], doc, extra)
